@@ -190,6 +190,8 @@ class Module:
         self.alpha_unextracted = alpha.inline_new_helpers(self.tree, name)
         self.alpha_tables = alpha.inline_new_tables(self.tree, name)
         self.alpha_inlined = alpha.inline_new_temps(self.tree, name)
+        alpha.slice_calls_as_slices(self.tree)
+        ast.fix_missing_locations(self.tree)
         self.alpha_reordered = alpha.restore_operand_order(self.tree, name)
         self.alpha_call_shapes = alpha.restore_call_shapes(self.tree, name)
         self.alpha_attr_renames = alpha.normalise_attrs(self.tree, name)
